@@ -72,6 +72,8 @@ def shard_fn(shard, nshards, seed, tier, exe, ntexts, ntrees):
             if mode == 1 and (len(cmds) % 3) == 0:
                 # the same text fed incrementally: numbers straddle calls, every call is monitored
                 cmds.append("LPC %d %d %d x%s" % (flags, depth, (1 + (len(cmds) // 3) % 7) * (-1 if (len(cmds) // 3) % 2 and b"\0" not in t else 1), t.hex()))
+        if shard == 0:
+            cmds.append("LPBIG")   # (2 GiB of text: one shard only)
         for ti, (toks, flags, rfmt) in enumerate(trees):
             if ti % 4 == 3:
                 # the tree is OLDER than the locale: built and serialized once while "C" is in effect everywhere, then the configuration is installed, then it is serialized
@@ -113,7 +115,10 @@ def shard_fn(shard, nshards, seed, tier, exe, ntexts, ntrees):
             raise core.Inconclusive("locale configuration %s not in effect: %s (LOCPATH=%s)" % (CONFIGS[cfg], lines[0], locale_synth.LOCDIR))
         for ci, (cmd, ln, bl) in enumerate(zip(cmds[1:-1], lines[1:-1], base[1:-1]), 1):
             op = cmd.split()[0]
-            if op not in ("LP", "LS", "LPC", "LPT"):
+            if op == "LPBIG" and ln.startswith("= nomem"):
+                sh.count("text_beyond_INT32_MAX_not_tried_for_lack_of_memory")
+                continue
+            if op not in ("LP", "LS", "LPC", "LPT", "LPBIG"):
                 continue
             sh.evaluations += 1
             pre = []
@@ -131,7 +136,7 @@ def shard_fn(shard, nshards, seed, tier, exe, ntexts, ntrees):
             same, fmt, sd, live, created, freed, foreign = map(int, m.groups())
             key = None
             what = ""
-            if op in ("LP", "LPC", "LPT"):
+            if op in ("LP", "LPC", "LPT", "LPBIG"):
                 err = int(res.split()[1])
                 outcome = "outcome-%d" % err
             else:
